@@ -1,7 +1,26 @@
 """C06 - decoding is independent of how bytes are delivered; File equals Reader.
 M: Stream.tla (fasta.read over bufio over every chunking of every input, data+EOF): SchedFree
 T: every format x (well-formed + mutated/noise inputs) x 16 delivery configurations incl. File plain/.gz, CRLF, missing path."""
+import json
+import os
+
+import codec
 import cross
+
+
+def model_texts(ctx, thorough):
+    """Every text the exhaustive codec models emit (valid and corrupted), to be decoded under several chunkings."""
+    sets = [("fastq", "MC_Fastq", "MC_Fastq_corrupt_emit"), ("samh", "MC_Sam", "MC_Sam_file_emit"), ("bed", "MC_Bed", "MC_Bed_file_emit")]
+    if thorough:
+        sets += [("fasta", "MC_Fasta", "MC_Fasta_layout_emit"), ("newick", "MC_Newick", "MC_Newick_trees_emit"), ("sam", "MC_Sam", "MC_Sam_record_emit")]
+    out = {}
+    for fmt, module, cfg in sets:
+        r = ctx.model_check(module, cfg, workers=4, count=False)
+        out.setdefault(fmt, []).extend(c["text"] for c in codec.emitted_cases(r["out"]))
+    path = os.path.join(ctx.work, "model_texts.json")
+    with open(path, "w") as f:
+        json.dump(out, f)
+    return path
 
 
 def run(ctx):
@@ -14,11 +33,15 @@ def run(ctx):
     ctx.model_check("MC_Stream", "MC_Stream_t7" if thorough else "MC_Stream_t", workers=16, heap="12g", timeout=3400)
     for cfg in (("MC_StreamLines_fq_t", "MC_StreamLines_rs_t") if thorough else ("MC_StreamLines_fq_q", "MC_StreamLines_rs_q")):
         ctx.model_check("MC_StreamLines", cfg, workers=16, heap="12g", timeout=3400)
+    mt = model_texts(ctx, thorough)
     if thorough:
-        cross.leg(ctx, "delivery-drive", [250, 500])
+        cross.leg(ctx, "delivery-drive", [250, 500, mt])
     else:
-        cross.leg(ctx, "delivery-drive", [8, 12])
+        cross.leg(ctx, "delivery-drive", [8, 12, mt])
     ctx.exhaustive = True
 
 
-replay = cross.replay
+def replay(ctx, rp):
+    dargs = list(rp["dargs"])
+    dargs[2] = model_texts(ctx, ctx.tier == "thorough")      # the work directory of the original run is gone
+    cross.leg(ctx, rp["driver"], dargs, only=rp["sid"])
